@@ -2,4 +2,4 @@
 # usage: tools/seedrun.sh <ID> <X> [check ids...] — run my quick checks against a sub-agent's change (default: the property's own check)
 ID=$1; X=$2; shift 2
 checks="${@:-$ID}"
-/verif/tools/mutcheck.sh /tmp/seed/$ID.out/$X/patch.diff $checks 2>&1 | cut -c1-260
+/verif/tools/mutcheck.sh ${SEEDDIR:-/tmp/seed}/$ID.out/$X/patch.diff $checks 2>&1 | cut -c1-260
